@@ -5,6 +5,8 @@ import (
 	"go/types"
 	"sort"
 	"strings"
+	"unicode"
+	"unicode/utf8"
 
 	"golang.org/x/tools/go/ssa"
 )
@@ -314,6 +316,21 @@ func (lf *lexFolder) run(fr *lexFrame, pos int, reads int, emitted string, lastW
 					fr.prev, fr.blk, fr.idx = blk, blk.Succs[k], 0
 					goto next
 				}
+				// a branch on what a function outside the library says about a
+				// rune (a classification the folder has no definition of): what
+				// the lexer does here is not decided
+				{
+					cond := in.Cond
+					if u, isU := cond.(*ssa.UnOp); isU {
+						cond = u.X
+					}
+					if call, isCall := cond.(*ssa.Call); isCall {
+						if sc := call.Call.StaticCallee(); sc != nil && sc.Pkg != c.SLib && sc.Blocks == nil || (sc != nil && sc.Pkg != c.SLib) {
+							lf.record(lexOutcome{kind: "gap", what: "branch on the result of " + sc.String() + ", which is not folded, at " + c.pos(in.Pos())})
+							return
+						}
+					}
+				}
 				// unknown: both ways
 				{
 					alt := fr.clone()
@@ -455,6 +472,14 @@ func (lf *lexFolder) run(fr *lexFrame, pos int, reads int, emitted string, lastW
 					fr.env[in] = b
 				}
 			case *ssa.Store:
+				// a scanner that stores the cursor itself (outside the tape
+				// primitives and tokenize's reset): this folder's tape does not follow it
+				if fa, ok := in.Addr.(*ssa.FieldAddr); ok && fr.parent != nil {
+					if pt, ok := fa.X.Type().Underlying().(*types.Pointer); ok && inFam(c.A.LexerFam, pt.Elem()) && fieldName(pt.Elem(), fa.Field) == "currentPos" {
+						lf.record(lexOutcome{kind: "gap", what: "the cursor is stored directly at " + c.pos(in.Pos())})
+						return
+					}
+				}
 				// token emission?
 				if fa, ok := in.Addr.(*ssa.FieldAddr); ok && fa.Field == 0 {
 					if pt, ok := fa.X.Type().Underlying().(*types.Pointer); ok && types.Identical(pt.Elem(), c.A.TokenT) {
@@ -559,6 +584,14 @@ func (lf *lexFolder) run(fr *lexFrame, pos int, reads int, emitted string, lastW
 						}
 					}
 				default:
+					// pure classification functions of the standard library on known
+					// runes and constant strings are folded by their definition
+					if callee != nil && callee.Pkg != nil {
+						if v, ok := foldStdPure(callee.Pkg.Pkg.Path()+"."+callee.Name(), in, f); ok {
+							fr.env[in] = v
+							break
+						}
+					}
 					// outside the library (strings, utf8, json, append, len ...): result unknown;
 					// an error result may be nil or not: both
 					if in.Type() != nil {
@@ -890,6 +923,11 @@ func lexCheck(os []lexOutcome, allowed, required []string) (viol string, gap str
 			missing = append(missing, q)
 		}
 	}
+	if gap != "" {
+		// some way through the lexer for this input was not followed to its end:
+		// what it does is not decided, whatever the other ways do
+		return "", gap
+	}
 	if len(extra) > 0 || len(missing) > 0 {
 		viol = fmt.Sprintf("does %v", keysOf(have))
 	}
@@ -1052,4 +1090,73 @@ func (c *Ctx) lexTier() string {
 		return "quick"
 	}
 	return c.Tier
+}
+
+// foldStdPure: constant folding of a few pure standard-library predicates
+// whose arguments are known (by their documented definition).
+func foldStdPure(name string, in *ssa.Call, f *folder) (fval, bool) {
+	arg := func(k int) (fval, bool) {
+		if k >= len(in.Call.Args) {
+			return fval{}, false
+		}
+		return f.eval(in.Call.Args[k])
+	}
+	str := func(k int) (string, bool) {
+		if k >= len(in.Call.Args) {
+			return "", false
+		}
+		if s, ok := constStr(in.Call.Args[k]); ok {
+			return s, true
+		}
+		if v, ok := arg(k); ok && v.kind == 's' {
+			return v.s, true
+		}
+		return "", false
+	}
+	runeArg := func(k int) (rune, bool) {
+		v, ok := arg(k)
+		if !ok || v.kind != 'i' {
+			return 0, false
+		}
+		return rune(v.i), true
+	}
+	b := func(x bool) (fval, bool) { return fval{kind: 'b', b: x}, true }
+	i := func(x int) (fval, bool) { return fval{kind: 'i', i: int64(x), bits: 64}, true }
+	switch name {
+	case "strings.ContainsRune":
+		if s, ok := str(0); ok {
+			if r, ok := runeArg(1); ok {
+				return b(strings.ContainsRune(s, r))
+			}
+		}
+	case "strings.IndexRune":
+		if s, ok := str(0); ok {
+			if r, ok := runeArg(1); ok {
+				return i(strings.IndexRune(s, r))
+			}
+		}
+	case "strings.IndexByte":
+		if s, ok := str(0); ok {
+			if r, ok := runeArg(1); ok && r >= 0 && r < 256 {
+				return i(strings.IndexByte(s, byte(r)))
+			}
+		}
+	case "unicode.IsDigit":
+		if r, ok := runeArg(0); ok {
+			return b(unicode.IsDigit(r))
+		}
+	case "unicode.IsLetter":
+		if r, ok := runeArg(0); ok {
+			return b(unicode.IsLetter(r))
+		}
+	case "unicode.IsSpace":
+		if r, ok := runeArg(0); ok {
+			return b(unicode.IsSpace(r))
+		}
+	case "unicode/utf8.RuneLen":
+		if r, ok := runeArg(0); ok {
+			return i(utf8.RuneLen(r))
+		}
+	}
+	return fval{}, false
 }
